@@ -351,16 +351,24 @@ def load_known():
 
 # --------------------------------------------------------------------------- main
 
-def select(prop, tier, only):
-    obs = []
+def select(prop, tier, only, seed=0):
+    """quick tier: obligations tagged quick; of a partitioned family (ob['part']) only the slice chosen by VERIF_SEED"""
+    obs, skipped = [], []
     for ob in registry.OBLIGATIONS:
         if prop not in ob["props"]:
             continue
-        if only and not any(o in ob["name"] for o in only):
+        if only:
+            if any(o in ob["name"] for o in only):
+                obs.append(ob)
             continue
         if tier == "quick" and ob.get("tier", "quick") != "quick":
+            skipped.append(ob["name"])
+            continue
+        if tier == "quick" and "part" in ob and ob["part"] != seed % 2:
+            skipped.append(ob["name"])
             continue
         obs.append(ob)
+    select.skipped = skipped
     return obs
 
 
@@ -382,7 +390,7 @@ def main():
         log(json.dumps({k: d[k] for k in ("obligation", "reason", "native_replay_reproduced", "native_replay_output", "rerun")}, indent=1))
         a.only = [d["obligation"]]
     t0 = time.time()
-    obs = select(prop, tier, a.only)
+    obs = select(prop, tier, a.only, seed)
     if not obs:
         log("UNDECIDED property=%s reason=no obligations registered for tier %s" % (prop, tier))
         return 2
@@ -569,6 +577,8 @@ def write_evidence(prop, tier, seed, results, wall, weave_stats, tools, errors, 
         "solver_time_s": round(solver, 2),
         "symex_time_s": round(symex, 2),
         "exhaustive": False,
+        "not_run_in_this_tier": getattr(select, "skipped", []),
+        "partition": ("quick tier runs the obligation family slice VERIF_SEED %% 2 = %d; the thorough tier runs all" % (seed % 2)) if getattr(select, "skipped", []) else "all obligations of the property ran",
         "tools": tools,
         "weave": weave_stats,
         "repo_head": git_head(),
